@@ -172,6 +172,11 @@ func vndLoopPhis(fn string) int { return -1 }
 // vndRequire: a structural premise of an argument made in DESIGN.md; if it does not hold the check is inconclusive.
 func vndRequire(c bool, why string) {}
 
+// vndRaceDetect switches the executor's happens-before race detection on for the rest of the path; vndRaceCheck
+// reports what it found. Natively both do nothing: the replay of a race tape runs under go test -race.
+func vndRaceDetect() {}
+func vndRaceCheck()  {}
+
 // vndWatchdog runs f and reports whether it returned (natively: within 3 seconds; symbolically: unless it blocks
 // forever on a channel nobody can make ready).
 func vndWatchdog(f func()) bool {
@@ -300,6 +305,14 @@ func (x *Exec) vnd(name string, args []Value) Value {
 	case "vndFloat32bits":
 		return args[0]
 	case "vndSettle", "vndYield":
+		return nil
+	case "vndRaceDetect":
+		if x.race == nil {
+			x.race = newRaceState()
+		}
+		return nil
+	case "vndRaceCheck":
+		x.raceReport()
 		return nil
 	case "vndWatchdog":
 		returned := true
